@@ -19,19 +19,21 @@ DT_CONT = [0.0, 0.5, 2.5, 5.0, 7.5, 10.0]
 DUTY_ROUND = [1.0, 10.0, 50.0, 100.0, 250.0, 500.0, 1000.0, 2000.0, 5000.0, 12000.0, 1e5]
 
 
-def temperature():
-    return st.one_of(
+def temperature(thirds=True):
+    alts = [
         st.sampled_from(COARSE),
         st.integers(-50, 450).map(float),
         st.integers(-100, 900).map(lambda k: k / 2),
         st.integers(-50000, 450000).map(lambda k: k / 1000),
-        st.tuples(st.integers(-50, 449), st.sampled_from([0.333333, 0.666667])).map(lambda t: round(t[0] + t[1], 6)),
-    )
+    ]
+    if thirds:
+        alts.append(st.tuples(st.integers(-50, 449), st.sampled_from([0.333333, 0.666667])).map(lambda t: round(t[0] + t[1], 6)))
+    return st.one_of(*alts)
 
 
-def palette(min_size=2, max_size=8):
+def palette(min_size=2, max_size=8, thirds=True):
     """Per-problem pool of temperatures so that coincident and nested ranges are common."""
-    return st.lists(temperature(), min_size=min_size, max_size=max_size, unique=True)
+    return st.lists(temperature(thirds), min_size=min_size, max_size=max_size, unique=True)
 
 
 def duty():
@@ -51,14 +53,14 @@ def htc():
 
 
 @st.composite
-def stream(draw, pal, zones, names=None, iso_share=0.1, dts=None, kind=None):
+def stream(draw, pal, zones, names=None, iso_share=0.1, dts=None, kind=None, thirds=True):
     """One process stream. ``kind``: None (any), "H", "C"."""
     iso = draw(st.integers(0, 999)) < int(iso_share * 1000) and kind != "H"
     a = draw(st.sampled_from(pal))
     if iso:
         ts = tt = a
     else:
-        b = draw(st.one_of(st.sampled_from(pal), temperature()).filter(lambda x: x != a))
+        b = draw(st.one_of(st.sampled_from(pal), temperature(thirds)).filter(lambda x: x != a))
         hi, lo = max(a, b), min(a, b)
         k = kind or draw(st.sampled_from(["H", "C"]))
         ts, tt = (hi, lo) if k == "H" else (lo, hi)
@@ -98,10 +100,10 @@ def zone_labels(multi=None):
 
 
 @st.composite
-def streams(draw, min_streams=1, max_streams=8, multi_zone=None, shape=None, iso_share=0.1, dts=None, pal=None):
+def streams(draw, min_streams=1, max_streams=8, multi_zone=None, shape=None, iso_share=0.1, dts=None, pal=None, thirds=True):
     """A stream set. ``shape`` in {None, "only-hot", "only-cold", "mixed"}."""
     labels = draw(zone_labels(multi_zone))
-    pal = pal or draw(palette())
+    pal = pal or draw(palette(thirds=thirds))
     n = draw(st.integers(max(min_streams, 1), max_streams))
     shape = shape or draw(st.sampled_from(["mixed"] * 8 + ["only-hot", "only-cold"]))
     out = []
@@ -109,7 +111,7 @@ def streams(draw, min_streams=1, max_streams=8, multi_zone=None, shape=None, iso
         kind = {"only-hot": "H", "only-cold": "C"}.get(shape)
         if shape == "mixed" and n >= 2 and i < 2:
             kind = "HC"[i]  # a mixed problem really has both kinds
-        s = draw(stream(pal, labels, iso_share=iso_share if shape != "only-hot" else 0.0, dts=dts, kind=kind))
+        s = draw(stream(pal, labels, iso_share=iso_share if shape != "only-hot" else 0.0, dts=dts, kind=kind, thirds=thirds))
         out.append(s)
     # every label of a multi-zone set is used at least once when there are enough streams
     if len(labels) > 1 and n >= len(labels):
@@ -122,9 +124,9 @@ UT_GLIDE = [0.1, 1.0, 10.0, 50.0]
 
 
 @st.composite
-def utility(draw, pal, side, idx, isothermal=None, dts=None, name=None):
+def utility(draw, pal, side, idx, isothermal=None, dts=None, name=None, thirds=True):
     """side: "Hot" | "Cold" | "Both"."""
-    t = draw(st.one_of(st.sampled_from(pal), temperature()))
+    t = draw(st.one_of(st.sampled_from(pal), temperature(thirds)))
     off = draw(st.sampled_from([0.0, 0.0, 5.0, 10.0, 20.0, 50.0, -5.0, -10.0, 100.0, 200.0]))
     t = round(t + (off if side != "Cold" else -off), 6)
     iso = draw(st.booleans()) if isothermal is None else isothermal
@@ -150,24 +152,24 @@ def utility(draw, pal, side, idx, isothermal=None, dts=None, name=None):
 
 
 @st.composite
-def utilities(draw, pal, max_hot=3, max_cold=3, max_both=1, isothermal=None, allow_none=True, dts=None):
+def utilities(draw, pal, max_hot=3, max_cold=3, max_both=1, isothermal=None, allow_none=True, dts=None, thirds=True):
     if allow_none and draw(st.integers(0, 9)) < 1:
         return []
     out = []
     for i in range(draw(st.sampled_from([0] + list(range(1, max_hot + 1)) * 2))):
-        out.append(draw(utility(pal, "Hot", i + 1, isothermal, dts)))
+        out.append(draw(utility(pal, "Hot", i + 1, isothermal, dts, thirds=thirds)))
     for i in range(draw(st.sampled_from([0] + list(range(1, max_cold + 1)) * 2))):
-        out.append(draw(utility(pal, "Cold", i + 1, isothermal, dts)))
+        out.append(draw(utility(pal, "Cold", i + 1, isothermal, dts, thirds=thirds)))
     for i in range(draw(st.integers(0, max_both))):
-        out.append(draw(utility(pal, "Both", i + 1, isothermal, dts)))
+        out.append(draw(utility(pal, "Both", i + 1, isothermal, dts, thirds=thirds)))
     return draw(st.permutations(out)) if out else out
 
 
 @st.composite
-def problem(draw, min_streams=1, max_streams=8, multi_zone=None, with_utilities=True, shape=None, iso_share=0.1, isothermal_utils=None, options=None, max_hot=3, max_cold=3, max_both=1):
-    pal = draw(palette())
-    ss = draw(streams(min_streams, max_streams, multi_zone, shape, iso_share, pal=pal))
-    us = draw(utilities(pal, max_hot, max_cold, max_both, isothermal_utils)) if with_utilities else []
+def problem(draw, min_streams=1, max_streams=8, multi_zone=None, with_utilities=True, shape=None, iso_share=0.1, isothermal_utils=None, options=None, max_hot=3, max_cold=3, max_both=1, thirds=True):
+    pal = draw(palette(thirds=thirds))
+    ss = draw(streams(min_streams, max_streams, multi_zone, shape, iso_share, pal=pal, thirds=thirds))
+    us = draw(utilities(pal, max_hot, max_cold, max_both, isothermal_utils, thirds=thirds)) if with_utilities else []
     case = {"streams": ss, "utilities": us}
     opts = draw(options) if options is not None else None
     if opts:
